@@ -10,6 +10,7 @@ import (
 	"encoding/json"
 	"fmt"
 	"github.com/sirupsen/logrus"
+	"io"
 	"io/ioutil"
 	"net/http/httptest"
 	"strings"
@@ -292,6 +293,9 @@ func (c *ctx) joinBatch(n int, concurrent bool) error {
 		}
 		rec := httptest.NewRecorder()
 		req := httptest.NewRequest("POST", "/", bytes.NewReader(cases[i].body))
+		if i%3 == 1 { // a body of unknown length (chunked transfer encoding): ContentLength -1
+			req = httptest.NewRequest("POST", "/", struct{ io.Reader }{bytes.NewReader(cases[i].body)})
+		}
 		if res, _ := observeFast(func() error { h.ServeHTTP(rec, req); return nil }); res != "" {
 			results[i] = result{0, []byte("handler did not return: " + res)} // no answer at all (net/http would drop the connection)
 			return
